@@ -417,6 +417,26 @@ def search(ctx):
             c = shrink(dict(c, queries=list(c["queries"])))
             found.append(Failure(c, "property oracle fails on the implementation", on_impl=oracle(c)))
             return found, n
+    # rounding-sensitive rank boundaries: sample sizes n and integer percentiles p for which some plausible float evaluation order
+    # of n*p/100 (pre-divided fraction, swapped factors, true division last) lands below the exact integer n*p/100; distinct
+    # multiplicities so that no tie hides a shifted boundary
+    probes = []
+    for nn in list(range(4, 121)) + [150, 170, 180, 200, 250, 300, 1000]:
+        for pp in range(1, 100):
+            exact = nn * pp // 100
+            alts = {int(nn * (pp / 100.0)), int((pp / 100.0) * nn), int(nn * pp / 100.0), int(nn * (pp * 0.01)), int(nn / 100.0 * pp)}
+            if alts != {exact}:
+                probes.append((nn, pp))
+    ctx.rng.shuffle(probes)
+    for nn, pp in probes[:(150 if ctx.quick else 2000)]:
+        sample = list(range(1, nn + 1))
+        ctx.rng.shuffle(sample)
+        c = {"sample": sample, "edges": [0, pp, 100], "queries": default_queries(sample)}
+        n += 1
+        msg = oracle(c)
+        if msg:
+            found.append(Failure(c, "property oracle fails on the implementation (rounding-sensitive rank boundary)", on_impl=msg))
+            return found, n
     budget = 400 if ctx.quick else 4000
     for i in range(budget):
         c = gen_case(ctx.rng, small=(i % 2 == 0), decimal=(i % 3 == 0))
